@@ -27,6 +27,15 @@ NCPU = min(16, os.cpu_count() or 4)
 EXIT_HELD, EXIT_VIOLATED, EXIT_INCONCLUSIVE = 0, 1, 2
 
 
+class StopShard(Exception):
+    """Raised by a property to end its shard early (e.g. after enough confirmed
+    non-termination witnesses, each of which costs the full CPU budget twice)."""
+
+
+class ShardTerminated(BaseException):
+    """SIGTERM from the parent's wall-clock watchdog: dump what was observed so far."""
+
+
 def h64(obj):
     if not isinstance(obj, (str, bytes)):
         obj = json.dumps(obj, sort_keys=True, default=repr, ensure_ascii=False)
@@ -219,7 +228,7 @@ def open_findings(prop_id):
 # --------------------------------------------------------------------------
 
 def write_replay(prop_id, v):
-    d = os.path.join(HOME, 'replays', prop_id)
+    d = os.path.join(os.environ.get('VERIF_REPLAY_DIR') or os.path.join(HOME, 'replays'), prop_id)
     os.makedirs(d, exist_ok=True)
     name = '%012x.json' % (h64([v['clause'], v['key'], v['case']]) >> 16)
     path = os.path.join(d, name)
@@ -257,7 +266,7 @@ def write_evidence(prop, tier, seed, merged, fin, wall_s, n_violations):
         'verdict': fin.get('verdict', ''),
         'code_under_test': REPO,
     }
-    d = os.path.join(HOME, 'evidence')
+    d = os.environ.get('VERIF_EVIDENCE_DIR') or os.path.join(HOME, 'evidence')
     os.makedirs(d, exist_ok=True)
     path = os.path.join(d, prop.ID + '.json')
     tmp = path + '.tmp'
@@ -292,14 +301,25 @@ def run_shards(prop, tier, seed, nshards, budget_s, wall_cap_s):
         try:
             rc = p.wait(timeout=max(1, deadline - time.time()))
         except subprocess.TimeoutExpired:
-            p.kill()
-            p.wait()
+            p.terminate()          # lets the shard dump what it has observed
+            try:
+                p.wait(timeout=20)
+            except subprocess.TimeoutExpired:
+                p.kill()
+                p.wait()
             rc = 'watchdog'
         log.close()
         if rc == 0 and os.path.exists(out):
             with open(out, 'rb') as f:
                 merged.add(pickle.load(f))
         else:
+            if os.path.exists(out):
+                try:
+                    with open(out, 'rb') as f:
+                        merged.add(pickle.load(f))
+                    merged.shards_ok -= 1
+                except Exception:
+                    pass
             tail = ''
             try:
                 with open(log.name) as f:
@@ -322,20 +342,38 @@ def run_shards(prop, tier, seed, nshards, budget_s, wall_cap_s):
 
 
 def worker_main(prop, args):
+    import resource
+    import signal
     ctx = Ctx(prop, args.tier, args.seed, args.shard, args.nshards, args.budget)
+    # a runaway case must not take the machine down: cap the address space of every shard
+    cap = int(os.environ.get('VERIF_SHARD_MEM_GB', '6')) << 30
+    try:
+        resource.setrlimit(resource.RLIMIT_AS, (cap, cap))
+    except (ValueError, OSError):
+        pass
+
+    def on_term(signum, frame):
+        raise ShardTerminated()
+    signal.signal(signal.SIGTERM, on_term)
     from . import taps
     cov = taps.LineCoverage()
     cov.start()
     extra = {}
+    rc = 0
     try:
         r = prop.run(ctx)
         if isinstance(r, dict):
             extra.update(r)
+    except StopShard as e:
+        ctx.note('shard %d stopped early: %s' % (ctx.shard, e))
+    except ShardTerminated:
+        ctx.note('shard %d was terminated by the wall-clock watchdog; partial observations kept' % ctx.shard)
+        rc = 3
     finally:
         cov.stop()
     extra['lines'] = cov.result()
     ctx.dump(args.out, extra)
-    return 0
+    return rc
 
 
 def main_check(prop, tier, seed):
